@@ -179,7 +179,7 @@ PROPS = {
         technique="Lean 4 proof (direct from the model's definition, induction over ops for bounds) + differential correspondence on corrupted inputs",
     ),
     "C16": dict(
-        modules=["Copia.Props.C16", "Copia.Props.C16b", "Copia.Props.C01d", "Copia.Props.C17b"], namespaces=["Copia.C16"], runner="rust", needs_cli=False,
+        modules=["Copia.Props.C16", "Copia.Props.C16b", "Copia.Props.C16c", "Copia.Props.C01d", "Copia.Props.C17b"], namespaces=["Copia.C16"], runner="rust", needs_cli=False,
         assumptions=_DELTA_ASSUME + ["block sizes 0 < bs ≤ 65536 and byte-valued sources (the C17 domain) for the checksum-threading invariant",
                                      "edit_bound needs the basis length to be a multiple of the block size (as the property's `file of distinct blocks`); distinctness of the blocks turned out not to be needed"],
         trusted_base=_DELTA_TB,
